@@ -185,6 +185,47 @@ def acceptEv (ans : Bytes → TiAns) (e : Event) : Option Unconf :=
 
 def handleUnconfirmed (ans : Bytes → TiAns) (evs : List Event) : List Unconf := evs.filterMap (acceptEv ans)
 
+/-! ## token metadata that changes over time
+
+`ans` — what the token contracts answer — is a parameter of every single call of `handleUnconfirmed` and of every single
+re-observation request (`ReobsNode.ti` below): an attestation is compared with what the contract reports *in that call*, and
+nothing an earlier call has learned is kept anywhere (`GetTokenInfo` asks the node every time).  `handleUnconfirmedRemembering`
+is the variant that keeps the first successful answer per token id (in the `Client`, say) and asks the node only on a miss.  It
+is *not* admissible: a contract can be migrated, a token can simply answer differently later — from then on an attestation of
+the remembered values is let through and one of the values the contract reports now is dropped
+(`C08.remembered_answers_go_stale`). -/
+
+/-- remembered look-ups: token id ↦ the first successful answer -/
+abbrev TiMemo := List (Bytes × TokenInfo)
+
+def getTokenInfoRemembering (memo : TiMemo) (ans : Bytes → TiAns) (tokenId : Bytes) : Option TokenInfo × TiMemo :=
+  if tokenId = alphTokenId then (some alphTokenInfo, memo)
+  else match memo.lookup tokenId with
+    | some ti => (some ti, memo)
+    | none =>
+      match getTokenInfo ans tokenId with
+      | some ti => (some ti, (tokenId, ti) :: memo)
+      | none => (none, memo)
+
+def acceptEvRemembering (memo : TiMemo) (ans : Bytes → TiAns) (e : Event) : Option Unconf × TiMemo :=
+  match toUnconfirmed e with
+  | none => (none, memo)
+  | some u =>
+    if isAttest u.msg then
+      match parseAttest u.msg.payload with
+      | none => (none, memo)
+      | some ti =>
+        let r := getTokenInfoRemembering memo ans ti.tokenId
+        (if r.1 == some ti then some u else none, r.2)
+    else (some u, memo)
+
+def handleUnconfirmedRemembering (memo : TiMemo) (ans : Bytes → TiAns) : List Event → List Unconf × TiMemo
+  | [] => ([], memo)
+  | e :: rest =>
+    let r := acceptEvRemembering memo ans e
+    let rr := handleUnconfirmedRemembering r.2 ans rest
+    ((match r.1 with | some u => [u] | none => []) ++ rr.1, rr.2)
+
 /-! ## pending events and `process` (watcher.go:384-448) -/
 
 /-- `UnconfirmedEventsPerBlock` with its map key -/
